@@ -319,8 +319,8 @@ def report(prop, tier, seed, results, extra, trusted, t0, rebaseline, verbose):
         exit_code = 1
     for o in problems['undecided']:
         if baseline is not None and o['name'] in proved_somewhere:
-            path, _ = replay.write_and_replay(prop, o, out_root, undecided=True)
-            lines.append('VIOLATION property=%s replay=%s no-failing-input-found' % (prop, path))
+            path, confirmed_ = replay.write_and_replay(prop, o, out_root, undecided=True)
+            lines.append('VIOLATION property=%s replay=%s%s' % (prop, path, '' if confirmed_ else ' no-failing-input-found'))
             violations.append(o['name'])
             exit_code = 1
         else:
